@@ -10,7 +10,13 @@ Memory layouts.  A case may carry 'layout' (for the density) and 'xlayout' (for 
 `relayout` builds an array of the SAME shape and the SAME logical content (a[i,j,..] unchanged) with that layout, as a view into a
 larger buffer whose other entries hold garbage (finite, ~1e2..2e2), so that code addressing the raw buffer instead of the array
 reads wrong numbers rather than unmapped memory.  Everything returned to the harness is read through numpy indexing
-(logical content, C-order flattening)."""
+(logical content, C-order flattening).
+
+Argument types (harness/props/c04_types.py).  Every value the harness sends is a JSON number / bool; a case may name, per argument, the
+Python / numpy TYPE in which the value is handed to the library (`conv`): frozen / nomut flags ('flag_types', 'nomut_types', per population;
+absent or None = the canonical call: `frozenK=True` for a frozen population, nothing otherwise), the numeric arguments by class
+('arg_types': nu, gamma, h, m, theta0, beta, T, initial_t; functions of time return the value in that type), the grid container
+('grid_type') and the density container ('phi_type').  The VALUES never change, only their type."""
 import sys, os, json, warnings
 warnings.filterwarnings('ignore')
 sys.path.insert(0, os.path.dirname(os.path.abspath(__file__)))
@@ -54,6 +60,63 @@ def relayout(arr, lay):
     assert np.array_equal(view, arr)
     return view
 
+class _PhiSub(np.ndarray):
+    """a plain ndarray subclass (what numpy.matrix-like wrappers and user classes look like to the library)"""
+    pass
+
+def conv(t, v):
+    """the value v in the argument type named t (None / 'canon': as the harness sent it)"""
+    if t is None or t == 'canon':
+        return v
+    if t == 'bool':
+        return bool(v)
+    if t == 'int':
+        assert v == int(v), v
+        return int(v)
+    if t == 'float':
+        return float(v)
+    if t in ('np.bool_', 'np.int64', 'np.int32', 'np.int8', 'np.uint8', 'np.float64', 'np.float32'):
+        ty = getattr(np, t[3:])
+        if 'int' in t:
+            assert v == int(v), v
+        return ty(v)
+    if t == '0d-bool':
+        return np.array(bool(v))
+    if t == '0d-int':
+        assert v == int(v), v
+        return np.array(int(v))
+    if t == '0d-float':
+        return np.array(float(v))
+    raise ValueError('unknown argument type %r' % (t,))
+
+def grid_as(xx, t):
+    if not t:
+        return xx
+    if t == 'list':
+        return [float(v) for v in xx]
+    if t == 'tuple':
+        return tuple(float(v) for v in xx)
+    if t == 'float32':
+        r = np.array(xx, dtype=np.float32)
+        assert np.array_equal(r.astype(float), np.asarray(xx, dtype=float)), 'grid not representable in float32'
+        return r
+    if t == 'longdouble':
+        return np.array(xx, dtype=np.longdouble)
+    if t == 'object':
+        return np.array([float(v) for v in xx], dtype=object)
+    if t == 'ma':
+        return np.ma.array(np.array(xx, dtype=float))
+    raise ValueError('unknown grid type %r' % (t,))
+
+def phi_as(phi, t):
+    if not t:
+        return phi
+    if t == 'ma':
+        return np.ma.array(phi)
+    if t == 'subclass':
+        return phi.view(_PhiSub)
+    raise ValueError('unknown density type %r' % (t,))
+
 def flat(a):
     a = np.asarray(a)
     return [float(t) for t in a.reshape(-1)] if a.ndim else [float(a)]
@@ -66,46 +129,69 @@ def integrate(phi, xx, c):
     pops = c['pops']
     assert len(pops) == d
     fn = c['as_func']          # None: constants; 'const': functions returning the constant; 'lin': nu(t)=nu+s*t
-    def par(v, s=0.0):
+    at = c.get('arg_types') or {}
+    ft = c.get('flag_types') or [None] * d
+    nt = c.get('nomut_types') or [None] * d
+    def par(v, s=0.0, cls=None):
+        ty = at.get(cls)
         if fn is None:
-            return v
+            return conv(ty, v)
         if fn == 'const':
-            return (lambda t, v=v: v)
+            return (lambda t, v=v, ty=ty: conv(ty, v))
         return (lambda t, v=v, s=s: v + s * t)
     names = '12345'
+    T = conv(at.get('T'), c['T'])
+    tkw = {}
+    if 'initial_t' in c:
+        tkw['initial_t'] = conv(at.get('initial_t'), c['initial_t'])
     try:
         if d == 1:
             p = pops[0]
-            kw = dict(nu=par(p['nu'], p.get('nu_slope', 0.0)), gamma=par(p['gamma']), h=par(p['h']), theta0=par(c['theta0'], c.get('theta_slope', 0.0)), beta=par(p.get('beta', 1.0)))
-            if p.get('frozen'):
+            kw = dict(nu=par(p['nu'], p.get('nu_slope', 0.0), 'nu'), gamma=par(p['gamma'], cls='gamma'), h=par(p['h'], cls='h'),
+                      theta0=par(c['theta0'], c.get('theta_slope', 0.0), 'theta0'), beta=par(p.get('beta', 1.0), cls='beta'))
+            if ft[0] is not None:
+                kw['frozen'] = conv(ft[0], bool(p.get('frozen')))
+            elif p.get('frozen'):
                 kw['frozen'] = True
-            res = Integration.one_pop(phi, xx, c['T'], **kw)
+            kw.update(tkw)
+            res = Integration.one_pop(phi, xx, T, **kw)
         else:
             kw = {}
             for i, p in enumerate(pops):
-                kw['nu' + names[i]] = par(p['nu'], p.get('nu_slope', 0.0))
-                kw['gamma' + names[i]] = par(p['gamma'])
-                kw['h' + names[i]] = par(p['h'])
-                if p.get('frozen'):
+                kw['nu' + names[i]] = par(p['nu'], p.get('nu_slope', 0.0), 'nu')
+                kw['gamma' + names[i]] = par(p['gamma'], cls='gamma')
+                kw['h' + names[i]] = par(p['h'], cls='h')
+                if ft[i] is not None:
+                    kw['frozen' + names[i]] = conv(ft[i], bool(p.get('frozen')))
+                elif p.get('frozen'):
                     kw['frozen' + names[i]] = True
-                if p.get('nomut') and d == 2:
-                    kw['nomut' + names[i]] = True
+                if d == 2:
+                    if nt[i] is not None:
+                        kw['nomut' + names[i]] = conv(nt[i], bool(p.get('nomut')))
+                    elif p.get('nomut'):
+                        kw['nomut' + names[i]] = True
                 others = [j for j in range(d) if j != i]
                 for j, m in zip(others, p['ms']):
                     # a zero rate stays a plain constant: the frozen-population guard tests `m != 0` on the argument itself
-                    kw['m' + names[i] + names[j]] = par(m) if m != 0 else 0
-            kw['theta0'] = par(c['theta0'], c.get('theta_slope', 0.0))
+                    kw['m' + names[i] + names[j]] = par(m, cls='m') if m != 0 else (0 if at.get('m') is None else conv(at.get('m'), m))
+            kw['theta0'] = par(c['theta0'], c.get('theta_slope', 0.0), 'theta0')
+            kw.update(tkw)
             f = [None, None, Integration.two_pops, Integration.three_pops, Integration.four_pops, Integration.five_pops][d]
-            res = f(phi, xx, c['T'], **kw)
+            res = f(phi, xx, T, **kw)
     finally:
         Integration.timescale_factor = 1e-3
         Integration.use_delj_trick = False
     return res
 
 def driver(c):
-    xx = relayout(c['grid'], c.get('xlayout'))
-    phi = relayout(np.array(c['phi'], dtype=float).reshape(c['shape']), c.get('layout'))
-    res = np.asarray(integrate(phi, xx, c))
+    xx = grid_as(relayout(c['grid'], c.get('xlayout')), c.get('grid_type'))
+    phi = phi_as(relayout(np.array(c['phi'], dtype=float).reshape(c['shape']), c.get('layout')), c.get('phi_type'))
+    res = integrate(phi, xx, c)
+    if isinstance(res, np.ma.MaskedArray):
+        if np.ma.getmaskarray(res).any():
+            raise ValueError('result has masked entries')
+        res = res.data
+    res = np.asarray(res, dtype=float)
     if list(res.shape) != list(c['shape']):
         raise ValueError('result shape %r for input shape %r' % (res.shape, c['shape']))
     return flat(res)
@@ -115,6 +201,10 @@ def inject(c):
     phi = relayout(np.array(c['phi'], dtype=float).reshape(c['shape']), c.get('layout'))
     xx = relayout(c['grid'], c.get('xlayout'))
     fr = c['frozen']; nm = c['nomut']
+    if c.get('ftypes'):
+        fr = [conv(t, v) for t, v in zip(c['ftypes'], fr)]
+    if c.get('ntypes'):
+        nm = [conv(t, v) for t, v in zip(c['ntypes'], nm)]
     if d == 1:
         Integration._inject_mutations_1D(phi, c['dt'], xx, c['theta0'])
     elif d == 2:
@@ -124,12 +214,36 @@ def inject(c):
         f(phi, c['dt'], *([xx] * d), c['theta0'], *fr)
     return flat(phi)
 
+def inject_many(c):
+    """the same density / grid / dt / theta0 with many flag (value, type) combinations: per combination the sparse change of the density
+    [[flat index, delta], ...] (the harness knows what it must be)"""
+    d = len(c['shape'])
+    phi0 = np.array(c['phi'], dtype=float).reshape(c['shape'])
+    xx = np.array(c['grid'], dtype=float)
+    f = getattr(Integration, '_inject_mutations_%dD' % d)
+    out = []
+    for vals, types in c['combos']:
+        phi = phi0.copy()
+        flags = [conv(t, v) for t, v in zip(types, vals)]
+        try:
+            if d == 2:
+                f(phi, c['dt'], xx, xx, c['theta0'], *flags)
+            else:
+                f(phi, c['dt'], *([xx] * d), c['theta0'], *flags)
+            df = (phi - phi0).reshape(-1)
+            out.append([[int(j), float(df[j])] for j in np.flatnonzero(df != 0)])
+        except Exception as e:
+            out.append({'error': type(e).__name__ + ': ' + str(e)[:200]})
+    return out
+
 def reject(c):
     d = len(c['shape'])
     xx = np.array(c['grid'], dtype=float)
     phi = np.ones(c['shape'])
     names = '12345'
-    kw = {'frozen%s' % names[c['frozen']]: True, 'm%s%s' % (names[c['i']], names[c['j']]): (c['m'] if not c.get('as_func') else (lambda t: c['m']))}
+    mt = c.get('mtype')
+    m = (lambda t: c['m']) if (c.get('as_func') or mt == 'func') else conv(mt, c['m'])
+    kw = {'frozen%s' % names[c['frozen']]: conv(c.get('ftype'), True), 'm%s%s' % (names[c['i']], names[c['j']]): m}
     f = [None, None, Integration.two_pops, Integration.three_pops, Integration.four_pops, Integration.five_pops][d]
     try:
         f(phi, xx, c['T'], **kw)
@@ -147,9 +261,14 @@ def manip(phi, xx, s):
     raise ValueError('unknown op %r' % (s['op'],))
 
 def remove(c):
-    xx = relayout(c['grid'], c.get('xlayout'))
-    phi = relayout(np.array(c['phi'], dtype=float).reshape(c['shape']), c.get('layout'))
-    r = np.asarray(manip(phi, xx, c))
+    xx = grid_as(relayout(c['grid'], c.get('xlayout')), c.get('grid_type'))
+    phi = phi_as(relayout(np.array(c['phi'], dtype=float).reshape(c['shape']), c.get('layout')), c.get('phi_type'))
+    r = manip(phi, xx, c)
+    if isinstance(r, np.ma.MaskedArray):
+        if np.ma.getmaskarray(r).any():
+            raise ValueError('result has masked entries')
+        r = r.data
+    r = np.asarray(r, dtype=float)
     return flat(r), list(r.shape)
 
 def pipe(c):
@@ -181,6 +300,8 @@ def main():
                 rec['res'] = c02_impl.kernel(c)
             elif k == 'inject':
                 rec['res'] = inject(c)
+            elif k == 'inject_many':
+                rec['res'] = inject_many(c)
             elif k == 'reject':
                 rec['res'] = reject(c)
             elif k == 'remove':
